@@ -22,10 +22,24 @@
 (* behaviour (FALSE); the checks bind the FALSE configuration to the code, *)
 (* the TRUE configurations document how TLC finds each defect.             *)
 (*                                                                         *)
-(* Properties (C17): Rectangular, ViewsAgree, SameStorage, CopiesDisjoint  *)
-(* (state invariants) and RowOpsUniform (action property).                 *)
+(* Properties (C17): Rectangular, ViewsAgree, SameStorage, CopiesDisjoint, *)
+(* CopyRectangular (state invariants) and RowOpsUniform (action property). *)
 (* Buffers are garbage collected and renumbered canonically after every    *)
 (* step so that the reachable state space is finite.                       *)
+(*                                                                         *)
+(* What the model leaves to the harness (it is covariant in these, the     *)
+(* check varies them per replayed history and counts each family):         *)
+(*   - the item view cf[t] and cf.getcolumn(t) ARE data[Idx(t)] by         *)
+(*     definition; the harness reads them through the public methods and   *)
+(*     compares their memory regions with `dids`; likewise the copy's      *)
+(*     attribute / item views with `cpids`                                 *)
+(*   - the container kind of an array argument (ndarray, python list) for  *)
+(*     addcolumn / setcolumn / cf[new] = ..: the stored column is a fresh   *)
+(*     ndarray either way (BUG_OVERLIST documents the pinned behaviour)     *)
+(*   - mask and index call shapes (ndarray / list, int32 / int64), the      *)
+(*     dtype (float64, int64, float32) and the strides of the start columns *)
+(* The value returned by get_bigarray is part of every history entry       *)
+(* (`ret` = the buffer ids of its rows; <<>> for every other operation).   *)
 (***************************************************************************)
 EXTENDS Integers, Sequences, FiniteSets, TLC, Json
 
@@ -35,8 +49,11 @@ CONSTANTS MaxDepth,            \* bound on the number of operations
           BUG_ARRATTR,         \* array mode: cf.a = arr copies into the row but binds arr      (F13b)
           BUG_ADDARR,          \* array mode: addcolumn(new title) -> ndarray has no append     (F15)
           BUG_SLICE,           \* copyrows(slice) returns views of the parent                   (F9)
+          BUG_CPNCOLS,         \* copyrows leaves ncols of the row-copy at 0                    (audit D)
+          BUG_OVERLIST,        \* list mode: addcolumn(python list, existing title) stores the list itself (audit D)
           AllowAlias,          \* enable addcolumn(cf.s, t): two titles, one buffer
-          EmitMode             \* 0 none, 1 every transition (ACTION_CONSTRAINT), 2 final states only
+          EmitMode             \* 0 none, 1 every transition (ACTION_CONSTRAINT), 2 final states only,
+                               \* 3 every transition of a history that contains addalias
 
 VARIABLES s, hist
 vars == <<s, hist>>
@@ -60,7 +77,7 @@ SelectPos(q, keep(_)) == LET F[i \in 0..Len(q)] ==
 Gather(col, sel) == [k \in 1..Len(sel) |-> col[sel[k]]]
 Iota(n) == [i \in 1..n |-> i]
 
-NoCopy == [on |-> FALSE, titles |-> <<>>, data |-> <<>>, nrows |-> 0, shares |-> FALSE]
+NoCopy == [on |-> FALSE, titles |-> <<>>, data |-> <<>>, nrows |-> 0, ncols |-> 0, shares |-> FALSE]
 
 \* ---- canonical renumbering / garbage collection of buffers ----------------------
 AttrRefs(R) == SelectSeq([i \in 1..3 |-> R.attr[TitleSeq[i]]], LAMBDA b : b > 0)
@@ -115,18 +132,23 @@ Proj(R) == [titles |-> R.titles, nrows |-> R.nrows, ncols |-> R.ncols,
                          IF R.attr[R.titles[i]] > 0 THEN R.heap[R.attr[R.titles[i]]] ELSE <<>>],
             isarr |-> R.isarr, user |-> R.user,
             ucol  |-> IF R.user > 0 THEN R.heap[R.user] ELSE <<>>,
-            cpon |-> R.cp.on, cptitles |-> R.cp.titles, cpnrows |-> R.cp.nrows, cpids |-> R.cp.data,
+            cpon |-> R.cp.on, cptitles |-> R.cp.titles, cpnrows |-> R.cp.nrows, cpncols |-> R.cp.ncols,
+            cpids |-> R.cp.data,
             cpcols |-> [i \in 1..Len(R.cp.data) |-> R.heap[R.cp.data[i]]],
             err |-> R.err]
 
-Commit(R, o) == /\ s' = Canon(R)
-                /\ hist' = Append(hist, [op |-> o, st |-> Proj(Canon(R))])
+\* `ret`: what the call returned when that is one of the observation points (get_bigarray: its rows)
+Commit(R, o) == LET C == Canon(R)
+                IN /\ s' = C
+                   /\ hist' = Append(hist, [op |-> o, st |-> Proj(C),
+                                            ret |-> IF o[1] = "getbig" THEN C.data ELSE <<>>])
 
 Enabled0 == s.err = "" /\ Len(hist) < MaxDepth
 
 \* ---- addcolumn / setcolumn / __setitem__ ------------------------------------------
-\* new title, fresh array
-AddNew(t, v) ==
+\* new title, fresh array: cf.addcolumn(arr, t) ("addnew") or cf[t] = arr ("setitem_new":
+\* __setitem__ of a title that is not there calls addcolumn)
+AddNewVia(t, v, route) ==
   /\ Enabled0 /\ ~Has(s.titles, t)
   /\ LET R0 == IF s.isarr /\ ~BUG_ADDARR THEN [s EXCEPT !.isarr = FALSE] ELSE s   \* repaired: back to a list
          R1 == Alloc(R0, <<Pattern(v, s.nrows)>>)
@@ -134,9 +156,11 @@ AddNew(t, v) ==
      IN IF s.isarr /\ BUG_ADDARR
         THEN \* titles.append ; ncols += 1 ; ndarray.append -> AttributeError, object left inconsistent
              Commit([s EXCEPT !.titles = Append(s.titles, t), !.ncols = s.ncols + 1,
-                              !.err = "addcolumn: ndarray has no append"], <<"addnew", t, v>>)
+                              !.err = "addcolumn: ndarray has no append"], <<route, t, v>>)
         ELSE Commit([R1 EXCEPT !.titles = Append(s.titles, t), !.ncols = s.ncols + 1,
-                               !.data = Append(s.data, id), !.attr[t] = id], <<"addnew", t, v>>)
+                               !.data = Append(s.data, id), !.attr[t] = id], <<route, t, v>>)
+AddNew(t, v) == AddNewVia(t, v, "addnew")
+SetItemNew(t, v) == AddNewVia(t, v, "setitem_new")
 
 \* existing title, fresh array (addcolumn / setcolumn): list -> re-bind ; array -> copy into the row
 AddOver(t, v) ==
@@ -146,6 +170,13 @@ AddOver(t, v) ==
                            !.attr[t] = s.data[Idx(s, t)]], <<"addover", t, v>>)
      ELSE LET R1 == Alloc(s, <<Pattern(v, s.nrows)>>)  id == Len(s.heap) + 1
           IN Commit([R1 EXCEPT !.data[Idx(s, t)] = id, !.attr[t] = id], <<"addover", t, v>>)
+
+\* pinned tree only: addcolumn(python list, existing title) in list mode stores the list object itself;
+\* column and attribute are then a list (-2 = "not an array"): the next chkarray user fails
+AddOverList(t, v) ==
+  /\ BUG_OVERLIST /\ Enabled0 /\ Has(s.titles, t) /\ ~s.isarr
+  /\ LET R1 == Alloc(s, <<Pattern(v, s.nrows)>>)  id == Len(s.heap) + 1
+     IN Commit([R1 EXCEPT !.data[Idx(s, t)] = id, !.attr[t] = -2], <<"addover_list", t, v>>)
 
 \* addcolumn(cf.src, t) : the user's array *is* another column's buffer (aliasing hazard)
 AddAlias(t, src) ==
@@ -199,11 +230,18 @@ SelOfMask(mk, n) == SelectPos(Iota(n), LAMBDA i : mk[i])
 Filter(mk) == /\ Enabled0 /\ Len(s.titles) > 0
               /\ FilterSel(SelOfMask(mk, s.nrows), <<"filter", [i \in 1..s.nrows |-> IF mk[i] THEN 1 ELSE 0]>>)
 
-\* removerows(t, [val]) : mask = (col.astype(int) == val) ; filter(~mask)
-RemoveRows(t, val) ==
+\* removerows(t, vals, tol) : tol <= 0: mask = OR_k (col.astype(int) == vals[k]) ;
+\*                            tol  > 0: mask = OR_k (|col - vals[k]| < tol) ; filter(~mask)
+\* tol2 = 2 * tol (0, 1/2, 3/2: never a boundary for the integer values of the model)
+AbsD(a, b) == IF a < b THEN b - a ELSE a - b
+Hit(c, val, tol2) == IF tol2 = 0 THEN c = val ELSE 2 * AbsD(c, val) < tol2
+Kept(col, vals, tol2) == SelectPos(Iota(Len(col)), LAMBDA i : ~\E k \in 1..Len(vals) : Hit(col[i], vals[k], tol2))
+RemoveRows(t, vals, tol2) ==
   /\ Enabled0 /\ Has(s.titles, t)
-  /\ LET col == ColOf(s, t)
-     IN FilterSel(SelectPos(Iota(s.nrows), LAMBDA i : col[i] # val), <<"removerows", t, val>>)
+  /\ FilterSel(Kept(ColOf(s, t), vals, tol2), <<"removerows", t, vals, tol2>>)
+\* one value (the three of them), two values in both orders of size, fuzzy with one and two values
+RemoveAlphabet == {<< <<0>>, 0 >>, << <<1>>, 0 >>, << <<2>>, 0 >>, << <<0, 2>>, 0 >>, << <<2, 1>>, 0 >>,
+                   << <<1>>, 1 >>, << <<0>>, 3 >>, << <<2, 0>>, 1 >>}
 
 \* reorder(indices): for col in __data: col[:] = col[indices]   (in place, column after column:
 \* a buffer that backs two titles is permuted twice) ; set_attributes
@@ -230,6 +268,7 @@ Copy ==
      IN IF R0.err # "" THEN Commit(R0, <<"copy">>)
         ELSE LET R1 == Alloc(R0, [i \in 1..Len(R0.data) |-> R0.heap[R0.data[i]]])
              IN Commit([R1 EXCEPT !.cp = [on |-> TRUE, titles |-> R0.titles, nrows |-> R0.nrows,
+                                         ncols |-> R0.ncols,
                                          data |-> FreshIds(R0, Len(R0.data)), shares |-> FALSE]],
                        <<"copy">>)
 
@@ -239,6 +278,7 @@ CopyRowsSel(sel, isslice, o) ==
   IN IF R0.err # "" THEN Commit(R0, o)
      ELSE LET R1 == Alloc(R0, [i \in 1..Len(R0.data) |-> Gather(R0.heap[R0.data[i]], sel)])
           IN Commit([R1 EXCEPT !.cp = [on |-> TRUE, titles |-> R0.titles, nrows |-> Len(sel),
+                                      ncols |-> IF BUG_CPNCOLS THEN 0 ELSE R0.ncols,
                                       data |-> FreshIds(R0, Len(R0.data)),
                                       shares |-> isslice /\ BUG_SLICE /\ Len(sel) > 0]], o)
 CopyRowsMask(mk) == /\ Enabled0 /\ Len(s.titles) > 0 /\ s.nrows > 0
@@ -246,8 +286,21 @@ CopyRowsMask(mk) == /\ Enabled0 /\ Len(s.titles) > 0 /\ s.nrows > 0
                                    <<"copyrows_mask", [i \in 1..s.nrows |-> IF mk[i] THEN 1 ELSE 0]>>)
 CopyRowsIdx(ix) == /\ Enabled0 /\ Len(s.titles) > 0 /\ s.nrows > 0
                    /\ CopyRowsSel(ix, FALSE, <<"copyrows_idx", ix>>)
-CopyRowsSlice(lo, hi) == /\ Enabled0 /\ Len(s.titles) > 0 /\ s.nrows > 0 /\ lo <= hi /\ hi <= s.nrows
-                         /\ CopyRowsSel([k \in 1..(hi - lo) |-> lo + k], TRUE, <<"copyrows_slice", lo, hi>>)
+\* python slice lo:hi:st on n rows (NoneV = an omitted bound; st = -1 only as [::-1])
+NoneV == 9
+SliceSel(lo, hi, st, n) ==
+  IF st = -1 THEN [k \in 1..n |-> n + 1 - k]
+  ELSE LET l0 == IF lo = NoneV THEN 0 ELSE IF lo < 0 THEN (IF n + lo < 0 THEN 0 ELSE n + lo)
+                 ELSE IF lo > n THEN n ELSE lo
+           h0 == IF hi = NoneV \/ hi > n THEN n ELSE hi
+           cnt == IF h0 <= l0 THEN 0 ELSE (h0 - l0 + st - 1) \div st
+       IN [k \in 1..cnt |-> l0 + 1 + (k - 1) * st]
+CopyRowsSlice(lo, hi, st) ==
+  /\ Enabled0 /\ Len(s.titles) > 0 /\ s.nrows > 0
+  /\ (hi # NoneV => (lo <= hi /\ hi <= s.nrows))
+  /\ CopyRowsSel(SliceSel(lo, hi, st, s.nrows), TRUE, <<"copyrows_slice", lo, hi, st>>)
+\* lo:hi as before ; every other row ; reversed ; the last two rows
+SliceAlphabet == {<<lo, hi, 1>> : lo \in 0..1, hi \in 1..3} \cup {<<NoneV, NoneV, 2>>, <<NoneV, NoneV, -1>>, <<-2, NoneV, 1>>}
 
 \* ---- bigarray -----------------------------------------------------------------------
 \* get_bigarray: np.asarray(list) builds a fresh block (hasattr(self,"__bigarray") is never true);
@@ -288,16 +341,17 @@ InPlaceAttr(t, v) ==
 
 Next ==
   \/ \E t \in TitleSet, v \in Vals : AddNew(t, v) \/ AddOver(t, v) \/ SetItemScalar(t, v) \/ SetAttrScalar(t, v)
+  \/ \E t \in TitleSet, v \in Vals : SetItemNew(t, v) \/ AddOverList(t, v)
   \/ \E t \in TitleSet, v \in {0, 1} : SetItemArray(t, v) \/ SetAttrArray(t, v)
   \/ \E t, src \in TitleSet : AddAlias(t, src)
   \/ \E mk \in Masks(s.nrows) : Filter(mk) \/ CopyRowsMask(mk)
-  \/ \E t \in TitleSet, val \in Vals : RemoveRows(t, val)
+  \/ \E t \in TitleSet, r \in RemoveAlphabet : RemoveRows(t, r[1], r[2])
   \/ \E p \in Perms(s.nrows) : Reorder(p)
   \/ \E t \in TitleSet : SortBy(t) \/ TakeAttr(t) \/ TakeItem(t)
   \/ Copy \/ GetBig
   \/ \E ix \in {<<1>>, <<2, 1>>, <<1, 1>>, <<1, 2>>, <<2, 3>>, <<1, 2, 3>>} :
         (\A k \in 1..Len(ix) : ix[k] <= s.nrows) /\ CopyRowsIdx(ix)   \* single, descending, repeated, ascending runs
-  \/ \E lo \in 0..1, hi \in 1..3 : CopyRowsSlice(lo, hi)
+  \/ \E sl \in SliceAlphabet : CopyRowsSlice(sl[1], sl[2], sl[3])
   \/ \E kind \in {0, 1}, n \in {2, 3}, v \in {0, 1} : SetBig(kind, n, v)
   \/ \E v \in Vals : MutateUser(v)
   \/ \E t \in TitleSet, v \in {1} : InPlaceAttr(t, v)
@@ -312,6 +366,7 @@ Rectangular ==
     /\ \A i \in 1..Len(s.data) : Len(s.heap[s.data[i]]) = s.nrows
     /\ \A i \in 1..Len(s.titles) : s.attr[s.titles[i]] > 0 => Len(s.heap[s.attr[s.titles[i]]]) = s.nrows
     /\ \A i, j \in 1..Len(s.titles) : i # j => s.titles[i] # s.titles[j]
+    /\ s.ncols = Len(s.titles)
 ViewsAgree ==
   s.err = "" => \A i \in 1..Len(s.titles) :
         /\ s.attr[s.titles[i]] > 0
@@ -321,14 +376,16 @@ SameStorage == s.err = "" => \A i \in 1..Len(s.titles) : s.attr[s.titles[i]] = s
 CopiesDisjoint ==
   s.cp.on => /\ ~s.cp.shares
              /\ Range(s.cp.data) \cap (Range(s.data) \cup {s.attr[t] : t \in TitleSet}) = {}
-CopyRectangular == s.cp.on => \A i \in 1..Len(s.cp.data) : Len(s.heap[s.cp.data[i]]) = s.cp.nrows
+CopyRectangular == s.cp.on => /\ \A i \in 1..Len(s.cp.data) : Len(s.heap[s.cp.data[i]]) = s.cp.nrows
+                              /\ Len(s.cp.data) = Len(s.cp.titles)
+                              /\ s.cp.ncols = Len(s.cp.titles)
 
 \* every row operation applies ONE index map to every column (checked on the step itself)
 LastOp == hist'[Len(hist')].op
 IsRowOp(o) == o[1] \in {"filter", "removerows", "reorder", "sortby"}
 RowMap(o) ==
   IF o[1] = "filter" THEN SelectPos(Iota(s.nrows), LAMBDA i : o[2][i] = 1)
-  ELSE IF o[1] = "removerows" THEN SelectPos(Iota(s.nrows), LAMBDA i : ColOf(s, o[2])[i] # o[3])
+  ELSE IF o[1] = "removerows" THEN Kept(ColOf(s, o[2]), o[3], o[4])
   ELSE IF o[1] = "reorder" THEN o[2]
   ELSE ArgSort(ColOf(s, o[2]))
 RowOpsUniformStep ==
@@ -341,7 +398,9 @@ RowOpsUniform == [][RowOpsUniformStep]_vars
 
 \* ---- emission for the replay harness -------------------------------------------------------
 Compact(h) == [i \in 1..Len(h) |-> IF i = Len(h) THEN h[i] ELSE [op |-> h[i].op]]
-EmitTransition == EmitMode # 1 \/ PrintT("@@" \o ToJson(Compact(hist')))
+EmitTransition == \/ EmitMode \notin {1, 3}
+                  \/ (EmitMode = 3 /\ ~\E i \in 1..Len(hist') : hist'[i].op[1] = "addalias")
+                  \/ PrintT("@@" \o ToJson(Compact(hist')))
 EmitFinal == EmitMode # 2 \/ Len(hist) < MaxDepth \/ PrintT("@@" \o ToJson(hist))
 \* VIEW: the history is not part of the state identity (one representative path per state)
 View == s
